@@ -25,23 +25,23 @@ pub struct PropInfo {
 }
 
 pub const PROPS: &[PropInfo] = &[
-    PropInfo { id: "C03", engine: Engine::Sql, level: "exploration", quick_runs: 6000, thorough_runs: 60000, watchdog_s: 20,
+    PropInfo { id: "C03", engine: Engine::Sql, level: "exploration", quick_runs: 6000, thorough_runs: 400000, watchdog_s: 20,
         rule: "one case = one generated history (sessions, autocommit statements, batches, rollbacks, session drops, failing statements) run against the real engine and the reference model; non-trivial = at least one ROLLBACK / session drop / failed statement or batch happened and a later read or state check compared against the model; distinct = distinct fingerprints of the logical event log" },
-    PropInfo { id: "C04", engine: Engine::Sql, level: "exploration", quick_runs: 6000, thorough_runs: 60000, watchdog_s: 20,
+    PropInfo { id: "C04", engine: Engine::Sql, level: "exploration", quick_runs: 6000, thorough_runs: 400000, watchdog_s: 20,
         rule: "one case = one generated interleaving of 2-4 sessions' statements; non-trivial = two transactions overlapped and a session read after another transaction committed since it began; distinct = distinct fingerprints of the logical event log" },
-    PropInfo { id: "C07", engine: Engine::Sql, level: "exploration", quick_runs: 6000, thorough_runs: 50000, watchdog_s: 20,
+    PropInfo { id: "C07", engine: Engine::Sql, level: "exploration", quick_runs: 6000, thorough_runs: 400000, watchdog_s: 20,
         rule: "one case = one history on tables with PRIMARY KEY / UNIQUE / NOT NULL and a key domain of five values; non-trivial = at least one statement was rejected for a constraint and at least one key was re-inserted after delete or rollback; distinct = distinct fingerprints" },
     PropInfo { id: "C09", engine: Engine::Sql, level: "exploration", quick_runs: 1500, thorough_runs: 30000, watchdog_s: 30,
         rule: "one case = one history split by 1-6 clean close/reopen cycles with different open() configurations; non-trivial = at least one reopen with committed data and a state check after it; distinct = distinct fingerprints" },
     PropInfo { id: "C12", engine: Engine::Sql, level: "exploration", quick_runs: 300, thorough_runs: 10000, watchdog_s: 40,
         rule: "one case = one history executed against k databases with different configurations (page size, cache, pool, min keys, siblings); non-trivial = the configurations differ and at least one of them evicted pages; distinct = distinct (history fingerprint, configuration set)" },
-    PropInfo { id: "C13", engine: Engine::Sql, level: "exploration", quick_runs: 3000, thorough_runs: 20000, watchdog_s: 30,
+    PropInfo { id: "C13", engine: Engine::Sql, level: "exploration", quick_runs: 3000, thorough_runs: 300000, watchdog_s: 30,
         rule: "one case = one history with VACUUM at arbitrary points; non-trivial = a VACUUM ran after committed or rolled-back work and a state check followed it; distinct = distinct fingerprints" },
-    PropInfo { id: "C15", engine: Engine::Sql, level: "exploration", quick_runs: 5000, thorough_runs: 30000, watchdog_s: 30,
+    PropInfo { id: "C15", engine: Engine::Sql, level: "exploration", quick_runs: 5000, thorough_runs: 300000, watchdog_s: 30,
         rule: "one case = one DDL-heavy history (CREATE/DROP/CREATE UNIQUE INDEX inside committed and rolled-back transactions, name reuse, reopen); non-trivial = at least one DDL statement ran inside a session and a later statement resolved that name; distinct = distinct fingerprints" },
     PropInfo { id: "C16", engine: Engine::Sql, level: "exploration", quick_runs: 16000, thorough_runs: 400000, watchdog_s: 20,
         rule: "one case = one history into which malformed, mutated and ill-typed statements are injected at arbitrary points of arbitrary sessions; non-trivial = at least one injected statement was rejected inside an open session and the state was compared afterwards; distinct = distinct fingerprints" },
-    PropInfo { id: "C06", engine: Engine::Sql, level: "exploration", quick_runs: 4000, thorough_runs: 30000, watchdog_s: 30,
+    PropInfo { id: "C06", engine: Engine::Sql, level: "exploration", quick_runs: 4000, thorough_runs: 150000, watchdog_s: 30,
         rule: "one case = one history followed by plan-variant families of the same logical query (index scan vs predicate no index serves; point vs range form); non-trivial = the variants of at least one family used different physical operators according to EXPLAIN; distinct = distinct fingerprints" },
 ];
 
@@ -55,9 +55,9 @@ pub const CRASH_PROPS: &[PropInfo] = &[
 ];
 
 pub const STORE_PROPS: &[PropInfo] = &[
-    PropInfo { id: "C10", engine: Engine::Btree, level: "exploration", quick_runs: 1500, thorough_runs: 60000, watchdog_s: 40,
+    PropInfo { id: "C10", engine: Engine::Btree, level: "exploration", quick_runs: 1500, thorough_runs: 200000, watchdog_s: 40,
         rule: "one case = one sequence of 10-400 insert / upsert / update / remove / lookup / scan / checkpoint operations on a B+tree over a real pager (page 4-16 KiB, min keys 3-6, siblings 1-3, cache 8 pages to unbounded; u64 / i64 / fixed-width text keys; ascending, descending, random and delete-everything orders; one payload size per tree), compared with a BTreeMap after every operation and audited structurally after every mutation; non-trivial = the tree split at least once (depth >= 1); distinct = distinct fingerprints of the operation log" },
-    PropInfo { id: "C11", engine: Engine::Btree, level: "exploration", quick_runs: 1500, thorough_runs: 60000, watchdog_s: 40,
+    PropInfo { id: "C11", engine: Engine::Btree, level: "exploration", quick_runs: 1500, thorough_runs: 150000, watchdog_s: 40,
         rule: "same runs as C10 with the page-ownership audit as the reported oracle: after every mutation each page 1..total_pages is exactly one of tree node / overflow link / free-list member, the free list is acyclic with the recorded head and tail, and the file does not grow while the free list is non-empty; non-trivial = pages were freed and later taken from the free list; distinct = distinct fingerprints of the operation log" },
     PropInfo { id: "C17", engine: Engine::Wal, level: "fault_enumeration", quick_runs: 2500, thorough_runs: 120000, watchdog_s: 30,
         rule: "one case = one sequence of appends (payload sizes from empty to one block, all record kinds) interleaved with force / close+reopen / truncate / reads with read-ahead 1-6, checked against a vector model after every read, then a crash at EVERY prefix of the recorded file mutations (reopen + read back); non-trivial = the log grew beyond its first block or was truncated or reopened, and at least one non-empty read was compared; distinct = distinct fingerprints of (operation log, I/O sequence)" },
